@@ -188,6 +188,54 @@
 //	                        rebinds (`for isIdent(r.peekByte(false)) { … }`)
 //	loop budgets            a reader (variable or structure field) counts with its length in the default budget; the preset
 //	                        gives every loop of read.go the budget of the hand-written model's counterpart
+//
+// Additions made for diff/diff.go (`tgs`, the Szymanski match finder, and `Diff`, the hunk-assembling loop; presets
+// "diff" and "diffmain").  The rules apply only to code the translator used to reject, or are switched on by the
+// preset (Config.DirectRange, Config.NoStructDefs), so every earlier translation is byte-identical:
+//
+//	m := make(map[string]int)   A LOCAL MAP is a functional map `GoLib.StrIntMap` (GIV/GoLibMap.lean: association list,
+//	                        newest binding first, last write wins), `make(map[string]int)` is `GoLib.mapEmpty`.  The variable
+//	                        may ONLY be used in the three forms below; the bare identifier (an argument, `m2 := m`, a result,
+//	                        `range m`, `len(m)`, `delete`) is rejected — the map never aliases and is never iterated (no order
+//	                        to model) — and so is `var m map[string]int` without initializer (a nil map panics on assignment)
+//	m[k]                    `GoLib.mapGet m k`: the newest binding of the string k, 0 for a missing key; never panics
+//	m[k] = v                `let m := GoLib.mapSet m k v`; a loop or joined branch that does it carries m as a modified variable
+//	v, ok := m[k]           the pair `(GoLib.mapGet m k, GoLib.mapHas m k)`, destructured like every tuple
+//	make([]int, n), make([]pair, 2+k)   no rule of their own: `GoLib.make?` with the zero value of the element type — for a
+//	                        configured structure the structure of zero fields (`({ x := 0, y := 0 } : GoPair)`); a negative
+//	                        length panics.  Likewise `T[k] = J[i]`, `seq[k] = pair{xi[i], yi[J[i]]}`, `seq[1+k] = pair{len(x), len(y)}`
+//	                        are the existing `GoLib.idx?` / `GoLib.setIdx?` (every index checked) and the existing composite
+//	                        literal; `for i := range T` (index only) recurses over the slice as it was when the loop began
+//	                        while the body updates T; `[]string` is `List Bytes`; `-1+-4` is `(-1) + (-4)`
+//	slices are values       `T[k] = v` rebinds T; in Go a second name for the same backing array would see the store.
+//	                        checkSliceAliases therefore rejects a function in which a slice variable that is assigned through
+//	                        an index is also copied under another name (`b := a`, `b = a[i:j]`, `b = append(a, …)`, in either
+//	                        direction).  `J := inv` of two slices that are only read, `l = l[:n]` and `xs = append(xs, x)` pass
+//	sort.Search(n, func(k int) bool { return e })   `GoLib.sortSearch n (fun k => do …; pure e)` (GIV/GoLibSort.lean: the loop of
+//	                        sort/search.go verbatim — i, j := 0, n; h := (i+j)/2; !f(h) ? i = h+1 : j = h — so also right for a
+//	                        predicate that is not monotone; budget n).  The closure must have one int parameter, result bool
+//	                        and a body that is a single `return e`.  e may read the enclosing function's variables (sort.Search
+//	                        does not keep the closure, so it sees their values at the call) and may panic (`T[k] >= J[i]`):
+//	                        the predicate has type Int → Option Bool and a panic inside it is a panic of the search.  It cannot
+//	                        assign; a call that rebinds a receiver inside e is rejected.  The parameter's name is free again
+//	                        after the closure (`k := sort.Search(n, func(k int) …)` binds the outer k under the same Lean name)
+//	min(a, b, …), max(…)    the builtins (Go 1.21) on ints: Lean's `min` / `max` on Int, folded from the left; rejected when
+//	                        the name is shadowed by a variable, a translated function or a package-level declaration
+//	fmt.Fprintf(&buf, "…%d…", i)   the verb `%d` (plain: no flag, width or precision) with an int argument is `GoLib.fmtInt i`
+//	                        (GIV/GoLibFmt.lean: decimal digits, most significant first, '-' for a negative number); `%s` as before
+//	range loop in a loop / join   DIRECT STYLE for `for … range` (Config.DirectRange; rangeDirect), as for `for` loops: inside
+//	                        another loop's body or a joined branch the loop definition recurses on the list and RETURNS the
+//	                        variables its body modifies, `f_loop<n> : fixed → List T → [index →] modified → Option (modified)`;
+//	                        the end of the list and `break` are `pure (modified)`, `continue` recurses on the rest, the caller
+//	                        rebinds: `let (count, ctext) ← Diff_loop4 … t10 count ctext`.  The range expression (`x[done.x:start.x]`,
+//	                        checked) is evaluated once, before the loop.  A `return` inside such a loop is rejected
+//	struct-typed locals     no rule of their own: `var done pair` is the zero structure, `start := m` copies the VALUE (Go structs
+//	                        are values), `start.x--` / `count.x = 0` is `{ start with x := … }`, `done = end` and
+//	                        `chunk = pair{end.x - C, end.y - C}` rebind; `const C = 3` in the loop body is a variable never
+//	                        assigned; `ctext = ctext[:0]` is the checked slice `GoLib.slice? ctext 0 0` (capacity is not
+//	                        observable); `bytes.Equal` is `==`; `return nil` of a []byte is `[]`
+//	Config.NoStructDefs     the structures are checked against the file but not emitted: module DiffMainGo uses the GoPair of
+//	                        module DiffGo, and calls its `lines` / `tgs` as configured library functions (Option results)
 package go2lean
 
 import (
@@ -221,6 +269,7 @@ const (
 	KBuffer // a local `var buf bytes.Buffer` / `var sb strings.Builder`: the bytes written so far (Lean Bytes), used only through its methods and fmt.Fprintf(&buf, …)
 	KReader // an `io.Reader` / `*bufio.Reader` (Config.Readers): the input that remains to be read (Lean Bytes); Name = the Go type
 	KPtr    // a parameter `p *[]T` (Config.PtrParams): an in-out parameter, Option of Elem (none = the nil pointer), threaded through
+	KIntMap // a local `m := make(map[string]int)`: a functional map (GoLib.StrIntMap, GIV/GoLibMap.lean), used only as m[k], m[k] = v, v, ok := m[k]
 )
 
 type Type struct {
@@ -239,6 +288,8 @@ var (
 	TStr   = &Type{K: KBytes, Str: true}
 	TMap   = &Type{K: KMap}
 	TError = &Type{K: KError}
+	// TIntMap: a local map[string]int (see KIntMap)
+	TIntMap = &Type{K: KIntMap}
 	// TBuffer: Name is the Go type, for messages only
 	TBuffer = &Type{K: KBuffer, Name: "bytes.Buffer"}
 )
@@ -265,6 +316,8 @@ func (t *Type) Lean() string {
 		return t.Name
 	case KMap:
 		return "(Bytes → Bool)"
+	case KIntMap:
+		return "GoLib.StrIntMap"
 	case KFunc:
 		parts := make([]string, 0, len(t.Tup)+1)
 		for _, x := range t.Tup {
@@ -344,6 +397,13 @@ type Config struct {
 	// package-level `errors.New` sentinels of the file must have messages different from these and from each other,
 	// because `err == errX` on pointers becomes equality of messages.
 	Sentinels map[string]string
+	// DirectRange: a `for … range` loop inside another loop's body or inside a joined branch is translated in direct
+	// style (rangeDirect).  Off for the older presets: their one such loop (imports.ShouldBuild) is the last statement
+	// of its branch, where the continuation-passing rule happens to produce well-formed Lean, and stays as it is.
+	DirectRange bool
+	// NoStructDefs: StructDefs checks the configured structures against the file's type declarations but emits
+	// nothing — the Lean structures are those of another generated module this one imports (the same Lean names).
+	NoStructDefs bool
 }
 
 type Param struct {
@@ -581,6 +641,9 @@ func (t *tr) typeExpr(e ast.Expr) *Type {
 		if k, ok := v.Key.(*ast.Ident); ok && k.Name == "string" {
 			if e, ok := v.Value.(*ast.Ident); ok && e.Name == "bool" {
 				return TMap
+			}
+			if e, ok := v.Value.(*ast.Ident); ok && e.Name == "int" && t.lookup("int") == nil && t.lookup("string") == nil {
+				return TIntMap
 			}
 		}
 	case *ast.SelectorExpr:
@@ -836,6 +899,9 @@ func (t *tr) exprN(e ast.Expr) val {
 			if t.threadedStruct(vi.t) {
 				t.fail(e, "%s is a threaded structure: only its fields and methods are in the subset (as a value the pointer would alias)", v.Name)
 			}
+			if vi.t.K == KIntMap {
+				t.fail(e, "%s is a map[string]int: only %s[k], %s[k] = v and v, ok := %s[k] are in the subset (as a value the map would alias; range over it has no fixed order)", v.Name, v.Name, v.Name, v.Name)
+			}
 			return val{s: vi.lean, t: vi.t}
 		}
 		if g, ok := t.cfg.Globals[v.Name]; ok {
@@ -886,6 +952,15 @@ func (t *tr) exprN(e ast.Expr) val {
 			}
 		}
 	case *ast.IndexExpr:
+		if vi := t.intMapVar(v.X); vi != nil { // m[k] of a local map[string]int: never panics, a missing key reads 0
+			before := t.nEff
+			i := t.expr(v.Index)
+			t.noEffSince(before, e)
+			if i.t == nil || i.t.K != KBytes {
+				t.fail(e, "unsupported map index")
+			}
+			return val{pre: i.pre, s: "GoLib.mapGet " + vi.lean + " " + paren(i.s), t: TInt}
+		}
 		before := t.nEff
 		x, i := t.expr(v.X), t.expr(v.Index)
 		t.noEffSince(before, e)
@@ -1001,6 +1076,16 @@ func (t *tr) exprN(e ast.Expr) val {
 	}
 	t.fail(e, "unsupported expression %s", t.src(e))
 	return val{}
+}
+
+// intMapVar: e is the name of a local map[string]int (KIntMap).
+func (t *tr) intMapVar(e ast.Expr) *varInfo {
+	if id, ok := e.(*ast.Ident); ok {
+		if vi := t.lookup(id.Name); vi != nil && vi.t.K == KIntMap {
+			return vi
+		}
+	}
+	return nil
 }
 
 // litType is the type of a composite literal when it is a configured structure (nil otherwise).
@@ -1287,6 +1372,28 @@ func (t *tr) call(c *ast.CallExpr) val {
 		}
 		t.fail(c, "method %s of a %s is outside the subset", method, vi.t.Name)
 	}
+	if (name == "min" || name == "max") && t.lookup(name) == nil && t.funcs[name] == nil && t.topLevel(name) == nil && len(c.Args) >= 1 && !c.Ellipsis.IsValid() {
+		// the builtins min / max (Go 1.21) on ints: Lean's min / max on Int, folded from the left
+		pre, vs := args()
+		s := ""
+		for i, x := range vs {
+			if x.t == nil || x.t.K != KInt {
+				t.fail(c, "%s of something other than ints", name)
+			}
+			if i == 0 {
+				s = x.s
+			} else {
+				s = name + " " + paren(s) + " " + paren(x.s)
+			}
+		}
+		return val{pre: pre, s: s, t: TInt}
+	}
+	if name == "sort.Search" && t.lookup("sort") == nil && len(c.Args) == 2 && !c.Ellipsis.IsValid() {
+		if fl, ok := c.Args[1].(*ast.FuncLit); ok {
+			return t.sortSearch(c, fl)
+		}
+		t.fail(c, "sort.Search with a predicate that is not a function literal")
+	}
 	switch name {
 	case "len":
 		pre, vs := args()
@@ -1320,6 +1427,9 @@ func (t *tr) call(c *ast.CallExpr) val {
 		return val{s: "(" + t.zero(ty) + " : " + ty.Lean() + ")", t: ty}
 	case "make":
 		ty := t.typeExpr(c.Args[0])
+		if ty.K == KIntMap && len(c.Args) == 1 { // make(map[string]int): the empty map
+			return val{s: "GoLib.mapEmpty", t: ty, nonNil: true}
+		}
 		if (len(c.Args) != 2 && len(c.Args) != 3) || (ty.K != KBytes && ty.K != KList) {
 			t.fail(c, "unsupported make")
 		}
@@ -1462,6 +1572,51 @@ func (t *tr) call(c *ast.CallExpr) val {
 	}
 	t.fail(c, "call of %s is outside the subset", name)
 	return val{}
+}
+
+// sortSearch translates `sort.Search(n, func(k int) bool { return e })`: `GoLib.sortSearch n (fun k => do …; pure e)`
+// (GIV/GoLibSort.lean: Go's binary search loop, also for a predicate that is not monotone).  The closure must have one
+// int parameter, the result bool and a body that is a single `return e`; e may read the variables of the enclosing
+// function (their values at the call: sort.Search does not keep the closure) and may panic (`T[k]`), so the predicate
+// is a function Int → Option Bool.  It cannot assign, and a call that rebinds a receiver inside e is rejected.
+func (t *tr) sortSearch(c *ast.CallExpr, fl *ast.FuncLit) val {
+	bad := func() { t.fail(c, "sort.Search: only `func(k int) bool { return e }` is in the subset") }
+	if fl.Type.TypeParams != nil || len(fl.Type.Params.List) != 1 || len(fl.Type.Params.List[0].Names) != 1 ||
+		fl.Type.Results == nil || len(fl.Type.Results.List) != 1 || len(fl.Type.Results.List[0].Names) != 0 || len(fl.Body.List) != 1 {
+		bad()
+	}
+	ret, ok := fl.Body.List[0].(*ast.ReturnStmt)
+	if !ok || len(ret.Results) != 1 {
+		bad()
+	}
+	n := t.expr(c.Args[0])
+	if n.t == nil || n.t.K != KInt {
+		bad()
+	}
+	t.push()
+	if pt, rt := t.typeExpr(fl.Type.Params.List[0].Type), t.typeExpr(fl.Type.Results.List[0].Type); pt.K != KInt || rt.K != KBool {
+		bad()
+	}
+	pname := fl.Type.Params.List[0].Names[0].Name
+	saveUsed := map[string]int{}
+	for k, v := range t.used {
+		saveUsed[k] = v
+	}
+	k := t.declare(pname, TInt)
+	before := t.nEff
+	saveRet, saveLoops := t.inReturn, t.loops
+	t.inReturn, t.loops = false, nil
+	e := t.expr(ret.Results[0])
+	t.inReturn, t.loops = saveRet, saveLoops
+	t.noEffSince(before, c)
+	t.pop()
+	t.used = saveUsed // the parameter's name is free again after the closure
+	if e.t == nil || e.t.K != KBool {
+		bad()
+	}
+	tmp := t.tmp()
+	line := fmt.Sprintf("let %s ← GoLib.sortSearch %s (fun %s => do\n%s)", tmp, paren(n.s), k.lean, indent(join(e.pre, "pure "+paren(e.s)), 4))
+	return val{pre: append(append([]string{}, n.pre...), line), s: tmp, t: TInt}
 }
 
 // ---------------------------------------------------------------- threaded receivers, pointer parameters, readers
@@ -1780,8 +1935,20 @@ func (t *tr) bufferWrite(c *ast.CallExpr, vi *varInfo) []string {
 			flush()
 			pre = append(pre, x.pre...)
 			parts = append(parts, paren(x.s))
+		case i < len(format) && format[i] == 'd':
+			if len(args) == 0 {
+				t.fail(c, "fmt.Fprintf: more verbs than arguments")
+			}
+			x := t.expr(args[0])
+			args = args[1:]
+			if x.t == nil || x.t.K != KInt {
+				t.fail(c, "fmt.Fprintf: the argument of %%d is not an int")
+			}
+			flush()
+			pre = append(pre, x.pre...)
+			parts = append(parts, "(GoLib.fmtInt "+paren(x.s)+")")
 		default:
-			t.fail(c, "fmt.Fprintf: only plain %%s verbs (and %%%%) are in the subset, the format is %s", lit.Value)
+			t.fail(c, "fmt.Fprintf: only plain %%s and %%d verbs (and %%%%) are in the subset, the format is %s", lit.Value)
 		}
 	}
 	flush()
@@ -2349,6 +2516,9 @@ func (t *tr) simple(s ast.Stmt) []string {
 				}
 				if vs.Type != nil {
 					ty = t.typeExpr(vs.Type)
+					if ty.K == KIntMap && i >= len(vs.Values) {
+						t.fail(s, "a nil map[string]int (an assignment to it panics) is outside the subset: use make")
+					}
 					if t.nilTest[n.Name] && (ty.K == KBytes || ty.K == KList) {
 						ty = &Type{K: KNil, Elem: ty} // `var x []T` of a variable that is compared with nil
 					}
@@ -2443,6 +2613,14 @@ func (t *tr) assignTo(lhs ast.Expr, x val, define bool) []string {
 			}
 		}
 	case *ast.IndexExpr:
+		if vi := t.intMapVar(l.X); vi != nil { // m[k] = v on a local map[string]int: the newest binding wins
+			i := t.expr(l.Index)
+			x = t.coerce(x, TInt)
+			if i.t == nil || i.t.K != KBytes || x.t == nil || x.t.K != KInt {
+				t.fail(lhs, "unsupported map assignment")
+			}
+			return append(i.pre, fmt.Sprintf("let %s : %s := GoLib.mapSet %s %s %s", vi.lean, vi.t.Lean(), vi.lean, paren(i.s), paren(x.s)))
+		}
 		id, ok := l.X.(*ast.Ident)
 		if ok && t.lookup(id.Name) != nil {
 			vi := t.lookup(id.Name)
@@ -2504,7 +2682,18 @@ func (t *tr) assign(a *ast.AssignStmt) []string {
 	if len(a.Rhs) != 1 {
 		t.fail(a, "unsupported assignment shape")
 	}
-	x := t.expr(a.Rhs[0])
+	var x val
+	if ie, ok := a.Rhs[0].(*ast.IndexExpr); ok && len(a.Lhs) == 2 && t.intMapVar(ie.X) != nil {
+		// v, ok := m[k] on a local map[string]int: the value (0 for a missing key) and whether the key is present
+		vi := t.intMapVar(ie.X)
+		i := t.expr(ie.Index)
+		if i.t == nil || i.t.K != KBytes {
+			t.fail(a, "unsupported map index")
+		}
+		x = val{pre: i.pre, s: fmt.Sprintf("(GoLib.mapGet %s %s, GoLib.mapHas %s %s)", vi.lean, paren(i.s), vi.lean, paren(i.s)), t: &Type{K: KTuple, Tup: []*Type{TInt, TBool}}}
+	} else {
+		x = t.expr(a.Rhs[0])
+	}
 	if x.t == nil || x.t.K != KTuple || len(x.t.Tup) != len(a.Lhs) {
 		t.fail(a, "multi-value assignment from a non-tuple")
 	}
@@ -2889,6 +3078,9 @@ func (t *tr) rangeStmt(v *ast.RangeStmt, rest func() string) string {
 	}
 	t.nLoop++
 	nLoop := t.nLoop
+	if (len(t.loops) > 0 || t.direct > 0) && t.cfg.DirectRange {
+		return t.rangeDirect(v, x, et, strPair, nLoop, rest)
+	}
 	after := t.auxDef("after", rest)
 	afterName := strings.Fields(after)[0]
 	afterArgs := strings.Fields(after)[1:]
@@ -2953,6 +3145,175 @@ func (t *tr) rangeStmt(v *ast.RangeStmt, rest func() string) string {
 	}
 	call := strings.TrimSpace(fmt.Sprintf("%s %s %s%s %s", name, strings.Join(fas, " "), paren(x.s), start, strings.Join(mas, " ")))
 	return join(x.pre, call)
+}
+
+// rangeDirect is the DIRECT STYLE (see forDirect) for a `for … range` loop that stands inside another loop's body
+// or inside a joined branch: the loop definition recurses on the list and returns the variables its body modifies,
+//
+//	f_loop<n> : fixed variables → List T → [index →] modified variables → Option (modified variables)
+//
+// the end of the list and `break` return the current values, `continue` and the end of the body recurse on the
+// rest, and the caller rebinds the variables: `let (ctext, count) ← f_loop<n> … t1 ctext count`.  The range
+// expression is evaluated once, before the loop (x.pre), as in Go.  A `return` inside such a loop is rejected.
+func (t *tr) rangeDirect(v *ast.RangeStmt, x val, et *Type, strPair bool, nLoop int, rest func() string) string {
+	bad := false
+	ast.Inspect(v.Body, func(n ast.Node) bool {
+		switch y := n.(type) {
+		case *ast.ReturnStmt:
+			bad = true
+		case *ast.FuncLit:
+			return false
+		case *ast.CallExpr:
+			if abortCalls[calleeName(y.Fun)] {
+				bad = true
+			}
+		}
+		return true
+	})
+	if bad {
+		t.fail(v, "a loop inside a loop body or a joined branch that returns is outside the subset")
+	}
+	outerVars := t.inScope()
+	mod := t.assigned(v.Body.List)
+	isMod := map[*varInfo]bool{}
+	for _, m := range mod {
+		isMod[m] = true
+	}
+	t.push()
+	keyName, valName := "", ""
+	if id, ok := v.Key.(*ast.Ident); ok && id.Name != "_" {
+		keyName = t.declare(id.Name, TInt).lean
+	}
+	if id, ok := v.Value.(*ast.Ident); ok && id.Name != "_" {
+		valName = t.declare(id.Name, et).lean
+	}
+	name := fmt.Sprintf("%s_loop%d", t.fnLean, nLoop)
+	var fps, fas, mts, mas []string
+	for _, o := range outerVars {
+		if !isMod[o] {
+			fps = append(fps, fmt.Sprintf("(%s : %s)", o.lean, o.t.Lean()))
+			fas = append(fas, o.lean)
+		}
+	}
+	for _, o := range mod {
+		mts = append(mts, o.t.Lean())
+		mas = append(mas, o.lean)
+	}
+	resTy := "Unit"
+	if len(mts) > 0 {
+		resTy = "(" + strings.Join(mts, " × ") + ")"
+	}
+	idxT, idxA, idxNext := "", "", ""
+	if keyName != "" && !strPair {
+		idxT, idxA, idxNext = "Int → ", ", "+keyName, " ("+keyName+" + 1)"
+	}
+	done := func() string { return "pure " + tuple(mod) }
+	recur := func() string {
+		return strings.TrimSpace(fmt.Sprintf("%s %s rest_%s %s", name, strings.Join(fas, " "), idxNext, strings.Join(mas, " ")))
+	}
+	saveLoops := t.loops
+	t.loops = append(t.loops, &loopCtx{brk: done, cont: recur})
+	t.direct++
+	t.push()
+	inner := t.block(v.Body.List, recur)
+	t.pop()
+	t.direct--
+	t.loops = saveLoops
+	t.pop()
+	hd := valName
+	if hd == "" {
+		hd = "_"
+	}
+	if strPair {
+		hd = "(" + keyName + ", " + hd + ")"
+	}
+	sig := fmt.Sprintf("def %s %s : %s → %s%sOption %s", name, strings.Join(fps, " "), x.t.Lean(), idxT, strings.Join(append(mts, ""), " → "), resTy)
+	nilPat := "  | []" + idxA + prefixEach(mas, ", ") + " => do\n" + indent(done(), 4)
+	consPat := "  | " + hd + " :: rest_" + idxA + prefixEach(mas, ", ") + " => do"
+	t.out = append(t.out, fmt.Sprintf("%s\n%s\n%s\n%s\n", sig, nilPat, consPat, indent(inner, 4)))
+	start := ""
+	if keyName != "" && !strPair {
+		start = " 0"
+	}
+	call := strings.TrimSpace(fmt.Sprintf("%s %s %s%s %s", name, strings.Join(fas, " "), paren(x.s), start, strings.Join(mas, " ")))
+	bind := "let _ ← " + call
+	if len(mod) > 0 {
+		bind = "let " + tuple(mod) + " ← " + call
+	}
+	return join(append(append([]string{}, x.pre...), bind), rest())
+}
+
+// checkSliceAliases rejects a function in which a slice that is written through (`a[i] = v`, `a[i] += v`, `a[i]++`) is
+// also copied under another name (`b := a`, `b = a[i:j]`, `b = append(a, …)`, either direction): slices are VALUES in
+// the translation, in Go the two names would share their elements.  (`l = l[:n]`, `xs = append(xs, x)` rebind the same
+// name and are fine; `J := inv` of two slices that are only read is fine.)
+func (t *tr) checkSliceAliases(fd *ast.FuncDecl) {
+	written := map[string]bool{}
+	noteW := func(e ast.Expr) {
+		if ix, ok := e.(*ast.IndexExpr); ok {
+			if id, ok := ix.X.(*ast.Ident); ok {
+				written[id.Name] = true
+			}
+		}
+	}
+	ast.Inspect(fd.Body, func(n ast.Node) bool {
+		switch v := n.(type) {
+		case *ast.AssignStmt:
+			for _, l := range v.Lhs {
+				noteW(l)
+			}
+		case *ast.IncDecStmt:
+			noteW(v.X)
+		}
+		return true
+	})
+	base := func(e ast.Expr) string {
+		for {
+			switch v := e.(type) {
+			case *ast.ParenExpr:
+				e = v.X
+			case *ast.SliceExpr:
+				e = v.X
+			case *ast.CallExpr:
+				if id, ok := v.Fun.(*ast.Ident); ok && id.Name == "append" && len(v.Args) > 0 {
+					e = v.Args[0]
+					continue
+				}
+				return ""
+			case *ast.Ident:
+				return v.Name
+			default:
+				return ""
+			}
+		}
+	}
+	check := func(n ast.Node, l ast.Expr, r ast.Expr) {
+		a, ok := l.(*ast.Ident)
+		b := base(r)
+		if !ok || b == "" || a.Name == b || a.Name == "_" {
+			return
+		}
+		if written[a.Name] || written[b] {
+			t.fail(n, "%s and %s would share their elements and one of them is assigned through an index: outside the subset (slices are values)", a.Name, b)
+		}
+	}
+	ast.Inspect(fd.Body, func(n ast.Node) bool {
+		switch v := n.(type) {
+		case *ast.AssignStmt:
+			if len(v.Lhs) == len(v.Rhs) && (v.Tok == token.ASSIGN || v.Tok == token.DEFINE) {
+				for i := range v.Lhs {
+					check(v, v.Lhs[i], v.Rhs[i])
+				}
+			}
+		case *ast.ValueSpec:
+			for i := range v.Values {
+				if i < len(v.Names) {
+					check(v, v.Names[i], v.Values[i])
+				}
+			}
+		}
+		return true
+	})
 }
 
 // ---------------------------------------------------------------- functions
@@ -3088,6 +3449,7 @@ func (t *tr) function(fd *ast.FuncDecl) string {
 		}
 		return true
 	})
+	t.checkSliceAliases(fd)
 	t.push()
 	sig := &funcSig{lean: t.fnLean}
 	var ps []string
@@ -3312,6 +3674,9 @@ func StructDefs(fset *token.FileSet, file *ast.File, cfg *Config) (text string, 
 			fmt.Fprintf(&sb, "  %s : %s\n", f.Lean, f.T.Lean())
 		}
 		sb.WriteString("deriving Repr, DecidableEq\n\n")
+	}
+	if cfg.NoStructDefs {
+		return "", nil
 	}
 	return sb.String(), nil
 }
